@@ -455,6 +455,145 @@ func gdaPredict(op string, v []ref.Val, c ref.Ctx) (res ref.Val, flags int, cmpE
 	return
 }
 
+// selftestText validates the grammar recogniser and the to-scientific-string formatter against the toSci vectors of
+// base.decTest: for every vector whose result carries no rounding condition, Parse(operand) must succeed and
+// FormatSci(Parse(operand)) must equal the expected string; vectors that expect Conversion_syntax must be rejected.
+func selftestText(dir string) (checked, skipped int, fails []string, err error) {
+	fh, e := os.Open(filepath.Join(dir, "base.decTest"))
+	if e != nil {
+		return 0, 0, nil, e
+	}
+	defer fh.Close()
+	prec := 9
+	maxE := 384
+	sc := bufio.NewScanner(fh)
+	sc.Buffer(make([]byte, 1<<20), 1<<20)
+	for sc.Scan() {
+		line := sc.Text()
+		if i := strings.Index(line, "--"); i >= 0 && !strings.Contains(line[:i], "'") && !strings.Contains(line[:i], "\"") {
+			line = line[:i]
+		}
+		line = strings.TrimSpace(line)
+		if line == "" || strings.HasPrefix(line, "--") {
+			continue
+		}
+		if i := strings.Index(line, ":"); i > 0 && !strings.Contains(line, "->") {
+			k := strings.ToLower(strings.TrimSpace(line[:i]))
+			v := strings.TrimSpace(line[i+1:])
+			if k == "precision" {
+				prec, _ = strconv.Atoi(v)
+			}
+			if k == "maxexponent" {
+				maxE, _ = strconv.Atoi(v)
+			}
+			continue
+		}
+		tok := splitGDA(line)
+		if len(tok) < 5 || strings.ToLower(tok[1]) != "tosci" || tok[3] != "->" {
+			continue
+		}
+		operand, want := tok[2], tok[4]
+		conds := strings.ToLower(strings.Join(tok[5:], " "))
+		if strings.Contains(operand, "#") || hasPayload(operand) || hasPayload(want) {
+			skipped++
+			continue
+		}
+		if strings.Contains(conds, "conversion_syntax") {
+			checked++
+			if _, ok := ref.Parse(operand); ok {
+				fails = append(fails, fmt.Sprintf("%s: recogniser accepts %q, vector expects Conversion_syntax", tok[0], operand))
+			}
+			continue
+		}
+		if conds != "" {
+			skipped++ // rounded / overflowed on input: not a pure conversion
+			continue
+		}
+		v, ok := ref.Parse(operand)
+		if !ok {
+			beyond := false
+			if i := strings.LastIndexAny(want, "Ee"); i >= 0 {
+				if n, err := strconv.Atoi(strings.TrimLeft(want[i+1:], "+")); err == nil && (n > 99990 || n < -99990) {
+					beyond = true // outside the package limits: rejected by the representability side condition
+				}
+			}
+			if strings.ContainsAny(operand, " ") || beyond {
+				skipped++
+				continue
+			}
+			fails = append(fails, fmt.Sprintf("%s: recogniser rejects %q, vector expects %q", tok[0], operand, want))
+			checked++
+			continue
+		}
+		if v.Form == ref.Finite && (ref.NDig(v.Coef) > prec || v.Adj() > maxE) {
+			skipped++
+			continue
+		}
+		checked++
+		got := ref.FormatSci(v, 'E')
+		if v.Form == ref.Finite && v.Coef.Sign() == 0 && v.Exp < 0 && v.Exp >= -2000 && v.Adj() < -6 {
+			// the documented apd exception (zeros with exponent in [-2000,-1] are plain); GDA writes 0E-n
+			got = map[bool]string{true: "-"}[v.Neg] + "0E" + strconv.Itoa(v.Exp)
+		}
+		if got != want {
+			fails = append(fails, fmt.Sprintf("%s: FormatSci(Parse(%q)) = %q, vector expects %q", tok[0], operand, got, want))
+		}
+	}
+	return
+}
+
+// selftestReal validates the real-valued reference (big.Float series) against published constants and identities.
+func selftestReal() []string {
+	var fails []string
+	const (
+		e100    = "2.718281828459045235360287471352662497757247093699959574966967627724076630353547594571382178525166427"
+		ln2100  = "0.6931471805599453094172321214581765680755001343602552541206800094933936219696947156058633269964186875"
+		ln10100 = "2.302585092994045684017991454684364207601101488628772976033327900967572609677352480235997205089598298"
+	)
+	near := func(name string, got *big.Float, want string, digits int) {
+		w, _, _ := big.ParseFloat(want, 10, 2000, big.ToNearestEven)
+		d := new(big.Float).Sub(got, w)
+		d.Abs(d)
+		tol := new(big.Float).Quo(big.NewFloat(1), new(big.Float).SetInt(ref.Pow10(digits)))
+		if d.Cmp(tol) > 0 {
+			fails = append(fails, fmt.Sprintf("%s differs from the published value beyond 1e-%d: %s", name, digits, got.Text('g', digits+5)))
+		}
+	}
+	for _, dg := range []int{40, 95} {
+		prec := ref.BitsFor(dg)
+		near(fmt.Sprintf("exp(1) at %d digits", dg), ref.ExpF(ref.NewF(prec).SetInt64(1), prec), e100, dg)
+		near(fmt.Sprintf("ln 2 at %d digits", dg), ref.Ln2(prec), ln2100, dg)
+		near(fmt.Sprintf("ln 10 at %d digits", dg), ref.Ln10(prec), ln10100, dg)
+	}
+	// identities exp(ln x) = x and agreement between working precisions, over a spread of arguments
+	for _, s := range []string{"2", "0.5", "10", "1.0000001", "0.9999999", "123456.789", "1E-30", "7E+40", "3.3E+200", "9.99E-250"} {
+		v, _ := ref.Parse(s)
+		for _, dg := range []int{30, 80, 400} {
+			prec := ref.BitsFor(dg)
+			l := ref.LnDec(v, prec)
+			back := ref.ExpF(l, prec)
+			x := ref.DecToF(v, prec)
+			d := new(big.Float).Sub(back, x)
+			d.Abs(d)
+			rel := new(big.Float).Quo(d, x)
+			tol := new(big.Float).Quo(big.NewFloat(1), new(big.Float).SetInt(ref.Pow10(dg-5)))
+			if rel.Cmp(tol) > 0 {
+				fails = append(fails, fmt.Sprintf("exp(ln(%s)) at %d digits is off by a relative %s", s, dg, rel.Text('g', 5)))
+			}
+			l2 := ref.LnDec(v, ref.BitsFor(dg+40))
+			d2 := new(big.Float).Sub(l, l2)
+			d2.Abs(d2)
+			if l2.Sign() != 0 {
+				d2.Quo(d2, new(big.Float).Abs(l2))
+			}
+			if d2.Cmp(tol) > 0 {
+				fails = append(fails, fmt.Sprintf("ln(%s) at %d and %d digits disagree by a relative %s", s, dg, dg+40, d2.Text('g', 5)))
+			}
+		}
+	}
+	return fails
+}
+
 // SelftestMain runs the reference self-test and prints its report.
 func SelftestMain(dir string) int {
 	st, err := selftestRef(dir)
@@ -476,7 +615,23 @@ func SelftestMain(dir string) int {
 			fmt.Println("  MISMATCH", f)
 		}
 	}
-	if len(st.fails) > 0 {
+	tc, ts, tf, terr := selftestText(dir)
+	if terr != nil {
+		fmt.Fprintln(os.Stderr, "selftest-ref:", terr)
+		return 2
+	}
+	fmt.Printf("selftest-ref: %d toSci vectors checked against the grammar recogniser and formatter, %d skipped, %d mismatches\n", tc, ts, len(tf))
+	for i, f := range tf {
+		if i < 40 {
+			fmt.Println("  MISMATCH", f)
+		}
+	}
+	rf := selftestReal()
+	fmt.Printf("selftest-ref: real-valued reference: exp(1), ln 2, ln 10 against published 100-digit values, exp(ln x) = x and cross-precision agreement on 10 arguments x 3 precisions: %d mismatches\n", len(rf))
+	for _, f := range rf {
+		fmt.Println("  MISMATCH", f)
+	}
+	if len(st.fails) > 0 || len(tf) > 0 || len(rf) > 0 {
 		return 2
 	}
 	return 0
